@@ -12,7 +12,7 @@ pub mod stubs;
 pub mod h_arch;
 pub mod h_batch;
 pub mod h_domain;
-pub mod h_params;
+pub mod h_transcript;
 pub mod h_vk_read;
 pub mod h_zkir;
 
